@@ -26,7 +26,7 @@ class Hotness:
     def __init__(self) -> None:
         self.module_mutables: Dict[str, Set[str]] = {}   # filename -> names of mutable globals
         self.class_attrs: Set[str] = set()
-        self._cache: Dict[Any, bool] = {}
+        self._cache: Dict[Any, int] = {}
         self._scan()
 
     def _scan(self) -> None:
@@ -52,26 +52,32 @@ class Hotness:
                             self.class_attrs.add(ak)
             self.module_mutables[fn] = muts
 
-    def is_hot(self, code: Any) -> bool:
+    def score(self, code: Any) -> int:
+        """0 = touches no lasting state; 2 = reads it (mutable module global, changeable class-level
+        attribute); 3 = writes it (assigns a module global or such a class-level attribute)."""
         try:
             return self._cache[code]
         except KeyError:
             pass
-        hot = False
+        sc = 0
         muts = self.module_mutables.get(code.co_filename, set())
         try:
             for ins in dis.get_instructions(code):
                 op = ins.opname
                 if op in ("STORE_GLOBAL", "DELETE_GLOBAL"):
-                    hot = True
+                    sc = 3
+                    break
+                if op in ("STORE_ATTR", "DELETE_ATTR") and ins.argval in self.class_attrs:
+                    sc = 3
                     break
                 if op == "LOAD_GLOBAL" and ins.argval in muts:
-                    hot = True
-                    break
-                if op in ("LOAD_ATTR", "STORE_ATTR", "DELETE_ATTR", "LOAD_METHOD") and ins.argval in self.class_attrs:
-                    hot = True
-                    break
+                    sc = max(sc, 2)
+                if op in ("LOAD_ATTR", "LOAD_METHOD") and ins.argval in self.class_attrs:
+                    sc = max(sc, 2)
         except Exception:  # noqa: BLE001
-            hot = False
-        self._cache[code] = hot
-        return hot
+            sc = 0
+        self._cache[code] = sc
+        return sc
+
+    def is_hot(self, code: Any) -> bool:
+        return self.score(code) > 0
